@@ -133,8 +133,10 @@ func Classify(args []string) (kind string, rest []string, noReplace bool) {
 		return KConfigGet, a[2:], noReplace
 	case eq("for-each-ref", "--format=%(objectname) %(objecttype) %(objectsize) %(refname)") && len(a) == 2:
 		return KForEachRef, nil, noReplace
-	case eq("rev-list", "--objects", "--stdin", "--date-order") && len(a) == 4:
-		return KRevList, nil, noReplace
+	case eq("rev-list") && revListFlagsOK(a[1:]):
+		// rest = the ordering flags given: the set of listing orders the
+		// explorer may answer with depends on them
+		return KRevList, a[1:], noReplace
 	case eq("cat-file", "--batch-check", "--buffer") && len(a) == 3:
 		return KBatchCheck, nil, noReplace
 	case eq("cat-file", "--batch", "--buffer") && len(a) == 3:
@@ -143,6 +145,32 @@ func Classify(args []string) (kind string, rest []string, noReplace bool) {
 		return KRevParseVerify, a[3:], noReplace
 	}
 	return KUnexpected, args, noReplace
+}
+
+// revListFlagsOK accepts `rev-list --objects --stdin` with or without an
+// ordering flag (without one, git promises no order among commits at all).
+func revListFlagsOK(flags []string) bool {
+	seen := map[string]bool{}
+	for _, f := range flags {
+		switch f {
+		case "--objects", "--stdin", "--date-order", "--topo-order", "--author-date-order":
+			seen[f] = true
+		default:
+			return false
+		}
+	}
+	return seen["--objects"] && seen["--stdin"]
+}
+
+// RevListOrdered tells whether the rev-list invocation asked for an order in
+// which no parent precedes its children.
+func RevListOrdered(args []string) bool {
+	for _, f := range args {
+		if f == "--date-order" || f == "--topo-order" || f == "--author-date-order" {
+			return true
+		}
+	}
+	return false
 }
 
 // faultWriter delivers output in chunks and kills the "process" at the planned byte.
@@ -622,7 +650,25 @@ func (e *Env) revList(roots []mrepo.ID, out io.Writer) int {
 	}
 	ids := l.IDs
 	if e.Plan.ListOrder != nil {
-		ids = e.Plan.ListOrder
+		// the planned order governs the relative order, but what is listed is
+		// always exactly what is reachable from the roots actually received
+		actual := map[mrepo.ID]bool{}
+		for _, id := range l.IDs {
+			actual[id] = true
+		}
+		planned := map[mrepo.ID]bool{}
+		ids = nil
+		for _, id := range e.Plan.ListOrder {
+			if actual[id] && !planned[id] {
+				planned[id] = true
+				ids = append(ids, id)
+			}
+		}
+		for _, id := range l.IDs {
+			if !planned[id] {
+				ids = append(ids, id)
+			}
+		}
 	}
 	w := bufio.NewWriterSize(out, 1<<16)
 	for _, id := range ids {
